@@ -369,12 +369,17 @@ Proof.
     now rewrite map_app.
   - cbn [log_run] in Hr. destruct op as [k a b|k p|k d]; destruct o as [j|]; cbn [op_step] in Hr; try discriminate.
     + destruct cur as [f|]; [destruct Hc|]. destruct (k =? n) eqn:E; [|discriminate]. apply Z.eqb_eq in E. subst k.
-      cbn [files_from]. edestruct IH as [m Hm]; [exact Hr|cbn; auto|]. exists (S m). rewrite Hm. reflexivity.
+      cbn [files_from].
+      destruct (IH done (Some {| f_num := n; f_sdts := a; f_sntp := b; f_parts := []; f_closed := None |})
+                   _ _ _ Hr (conj eq_refl eq_refl)) as [m Hm].
+      exists (S m). rewrite Hm. reflexivity.
     + destruct cur as [f|]; [|destruct Hc]. destruct Hc as [Hn Hcl]. destruct (k =? j) eqn:E; [|discriminate].
-      cbn [files_from option_map]. edestruct IH as [m Hm]; [exact Hr|cbn; split; [exact Hn|exact Hcl]|].
+      cbn [files_from option_map].
+      destruct (IH done (Some (add_part f p)) _ _ _ Hr (conj Hn Hcl)) as [m Hm].
       exists m. rewrite Hm. reflexivity.
     + destruct cur as [f|]; [|destruct Hc]. destruct Hc as [Hn Hcl]. destruct (k =? j) eqn:E; [|discriminate].
-      cbn [files_from]. edestruct IH as [m Hm]; [exact Hr|cbn; auto|].
+      cbn [files_from].
+      destruct (IH (set_closed f d :: done) None _ _ _ Hr I) as [m Hm].
       exists m. rewrite Hm. cbn [rev app]. rewrite map_app, <- app_assoc. reflexivity.
 Qed.
 
@@ -387,11 +392,16 @@ Proof.
     apply in_rev in Hin. auto.
   - cbn [log_run] in Hr. destruct op as [k a b|k p|k d]; destruct o as [j|]; cbn [op_step] in Hr; try discriminate.
     + destruct cur as [g|]; [destruct Hc|]. destruct (k =? n) eqn:E; [|discriminate].
-      cbn [files_from] in Hin. eapply IH; [exact Hr|cbn; auto|exact Hd|exact Hin].
+      cbn [files_from] in Hin.
+      assert (Hc' : cur_ok (Some {| f_num := k; f_sdts := a; f_sntp := b; f_parts := []; f_closed := None |}) (Some k))
+        by (split; reflexivity).
+      exact (IH _ _ _ _ _ Hr Hc' Hd f Hin).
     + destruct cur as [g|]; [|destruct Hc]. destruct Hc as [Hn Hcl]. destruct (k =? j) eqn:E; [|discriminate].
-      cbn [files_from option_map] in Hin. eapply IH; [exact Hr|cbn; split; [exact Hn|exact Hcl]|exact Hd|exact Hin].
+      cbn [files_from option_map] in Hin.
+      assert (Hc' : cur_ok (Some (add_part g p)) (Some j)) by (split; [exact Hn|exact Hcl]).
+      exact (IH _ _ _ _ _ Hr Hc' Hd f Hin).
     + destruct cur as [g|]; [|destruct Hc]. destruct Hc as [Hn Hcl]. destruct (k =? j) eqn:E; [|discriminate].
-      cbn [files_from] in Hin. eapply IH; [exact Hr|cbn; auto| |exact Hin].
+      cbn [files_from] in Hin. refine (IH _ None _ _ _ Hr I _ f Hin).
       intros f' [<-|Hf']; [cbn; discriminate|auto].
 Qed.
 
@@ -408,4 +418,251 @@ Proof.
     now rewrite Hl.
   - intros Ho. rewrite (log_run_open _ _ _ _ _ Hr) in Ho. subst o'.
     eapply files_from_closed; [exact Hr|exact I|intros f []].
+Qed.
+
+(* ------------------------------------------------------------------------------------------------------------ *)
+(* B. no accepted sample is lost: the parts written so far plus the current part are the accepted samples, in order *)
+
+Definition cur_smps (sg : option sst) : list wsmp :=
+  match sg with
+  | Some g => match g.(g_cur) with Some p => p.(p_smps) | None => [] end
+  | None => []
+  end.
+Lemma log_samples_app l1 l2 : log_samples (l1 ++ l2) = log_samples l1 ++ log_samples l2.
+Proof. unfold log_samples, parts_of. now rewrite !flat_map_app. Qed.
+Lemma samples_close_part g : log_samples (close_part_ops g) = cur_smps (Some g).
+Proof.
+  unfold close_part_ops, create_ops, cur_smps. destruct (g_cur g); [|reflexivity].
+  destruct (g_created g); cbn; now rewrite app_nil_r.
+Qed.
+Lemma samples_seg_close g : log_samples (seg_close_ops g) = cur_smps (Some g).
+Proof.
+  unfold seg_close_ops. rewrite log_samples_app, samples_close_part.
+  destruct (g_created (close_part_seg g)); cbn; now rewrite app_nil_r.
+Qed.
+Lemma part_write_smps c st rate p w p' : part_write c st rate p w = Some p' ->
+  p_smps p' = p_smps p ++ [w] /\ p_start p' = p_start p /\ p_end p' = Z.max (p_end p) (w_end w)
+  /\ p_size p' = p_size p + s_size (w_smp w) /\ p_size p' <= c_max_part c /\ p_num p' = p_num p.
+Proof.
+  unfold part_write. destruct (_ >? _) eqn:E; [discriminate|]. intros [= <-]. cbn. repeat split; lia.
+Qed.
+(* the samples of formatFMP4Segment.write's result: log suffix ++ current part = old current part ++ accepted *)
+Lemma samples_seg_write c rate g w lg g1 lg1 ok : seg_write c rate g w lg = (g1, lg1, ok) ->
+  log_samples lg1 ++ cur_smps (Some g1) = log_samples lg ++ cur_smps (Some g) ++ (if ok then [w] else []).
+Proof.
+  intros Hw. destruct (seg_write_spec c rate g w lg) as (g' & Hs & _ & _ & _ & _ & _ & Hcur).
+  rewrite Hs in Hw. injection Hw as <- <- <-. rewrite log_samples_app, <- app_assoc. f_equal.
+  unfold cur_smps at 1. rewrite Hcur. unfold sw_ops, sw_part, sw_full in *.
+  destruct (g_cur g) as [p|] eqn:Hc.
+  - destruct (p_end p - p_start p >=? c_part_dur c).
+    + rewrite samples_close_part. f_equal.
+      destruct (part_write _ _ _ _ w) as [p'|] eqn:Hp; [|reflexivity].
+      apply part_write_smps in Hp. now destruct Hp as (-> & _).
+    + cbn [log_samples parts_of flat_map app]. unfold cur_smps. rewrite Hc.
+      destruct (part_write _ _ _ _ w) as [p'|] eqn:Hp; [|now rewrite app_nil_r].
+      apply part_write_smps in Hp. now destruct Hp as (-> & _).
+  - cbn [log_samples parts_of flat_map app]. unfold cur_smps. rewrite Hc.
+    destruct (part_write _ _ _ _ w) as [p'|] eqn:Hp; [|reflexivity].
+    apply part_write_smps in Hp. now destruct Hp as (-> & _).
+Qed.
+
+Definition InvB (v : sview) : Prop :=
+  match v with (sg, _, lg, ac) => log_samples lg ++ cur_smps sg = ac end.
+Lemma ensure_smps sg ns g0 ns0 : ensure sg ns g0 ns0 -> cur_smps (Some g0) = cur_smps sg.
+Proof. intros [g n|n d m]; reflexivity. Qed.
+
+Lemma InvB_run c evs x : InvB (view x) -> InvB (view (run_from c x evs)).
+Proof.
+  apply (run_from_inv c InvB InvB); auto.
+  - intros sg ns lg ac g0 ns0 H He. unfold InvB in *. now rewrite (ensure_smps _ _ _ _ He).
+  - intros sg ns lg ac g0 ns0 rate w g1 lg1 H He Hw. unfold InvB in *.
+    rewrite (samples_seg_write _ _ _ _ _ _ _ _ Hw), (ensure_smps _ _ _ _ He), app_nil_r. exact H.
+  - intros sg ns lg ac g0 ns0 rate w g1 lg1 H He Hw. unfold InvB in *.
+    pose proof (samples_seg_write _ _ _ _ _ _ _ _ Hw) as Hs. rewrite (ensure_smps _ _ _ _ He) in Hs.
+    rewrite app_assoc, H in Hs. split; [exact Hs|]. intros d n.
+    rewrite seg_close_spec, log_samples_app, samples_seg_close, app_nil_r. exact Hs.
+Qed.
+
+Lemma no_sample_lost_raw c evs : log_samples (x_log (run_raw c evs)) = x_acc (run_raw c evs).
+Proof.
+  unfold run_raw. set (x := run_from c (init_st c) evs).
+  assert (HB : InvB (view x)) by (apply InvB_run; reflexivity).
+  pose proof (finish_view x) as Hv. unfold view in Hv at 1. unfold view in HB. cbn in HB.
+  destruct (x_seg x) as [g|].
+  - injection Hv as _ _ Hl Ha. rewrite Hl, Ha, log_samples_app, samples_seg_close. exact HB.
+  - injection Hv as _ _ Hl Ha. rewrite Hl, Ha. cbn in HB. now rewrite app_nil_r in HB.
+Qed.
+
+(* ------------------------------------------------------------------------------------------------------------ *)
+(* C. part bounds *)
+
+Fixpoint last_part (prev : option (list wsmp)) (l : list sop) : option (list wsmp) :=
+  match l with
+  | [] => prev
+  | SPart _ p :: r => last_part (Some p.(o_smps)) r
+  | _ :: r => last_part None r
+  end.
+Lemma pb_app c : forall l1 prev l2,
+  parts_bounded c prev (l1 ++ l2) = parts_bounded c prev l1 && parts_bounded c (last_part prev l1) l2.
+Proof.
+  induction l1 as [|o r IH]; intros prev l2; [reflexivity|].
+  destruct o; cbn [app parts_bounded last_part]; rewrite IH; [reflexivity| |reflexivity].
+  now rewrite <- !andb_assoc.
+Qed.
+Lemma last_part_app : forall l1 prev l2, last_part prev (l1 ++ l2) = last_part (last_part prev l1) l2.
+Proof. induction l1 as [|o r IH]; intros prev l2; [reflexivity|]. destruct o; cbn; apply IH. Qed.
+
+Definition trailing (c : cfg) (q : option (list wsmp)) : Prop :=
+  match q with Some l => c.(c_part_dur) <= span l | None => True end.
+Definition log_inv (c : cfg) (lg : list sop) : Prop :=
+  parts_bounded c None lg = true /\ trailing c (last_part None lg).
+
+Definition fold_end (l : list wsmp) : Z := fold_left Z.max (map w_end l) 0.
+Definition part_strong (c : cfg) (p : pst) : Prop :=
+  p.(p_smps) <> [] /\ p.(p_size) = size_of p.(p_smps) /\ p.(p_size) <= c.(c_max_part)
+  /\ p.(p_start) = w_dts (hd (Build_wsmp O false (Build_smp 0 0 false 0) 0 0 0) p.(p_smps))
+  /\ p.(p_end) = fold_end p.(p_smps) /\ short c p.(p_smps) = true.
+Definition seg_strong (c : cfg) (sg : option sst) : Prop :=
+  forall g p, sg = Some g -> g.(g_cur) = Some p -> part_strong c p.
+Definition seg_weak (c : cfg) (sg : option sst) : Prop :=
+  forall g p, sg = Some g -> g.(g_cur) = Some p -> part_ok c p.(p_smps) = true.
+
+Lemma span_strong c p : part_strong c p -> span (p_smps p) = p_end p - p_start p.
+Proof.
+  intros (Hne & _ & _ & Hs & He & _). unfold span. destruct (p_smps p) as [|w r] eqn:E; [now destruct Hne|].
+  rewrite Hs, He. reflexivity.
+Qed.
+Lemma strong_weak c p : part_strong c p -> part_ok c (p_smps p) = true.
+Proof.
+  intros (_ & Hs & Hm & _ & _ & Hsh). unfold part_ok. rewrite Hsh, andb_true_r. apply Z.leb_le. lia.
+Qed.
+Lemma size_of_app l1 l2 : size_of (l1 ++ l2) = size_of l1 + size_of l2.
+Proof. unfold size_of. induction l1 as [|a r IH]; cbn; [reflexivity|]. cbn in IH. rewrite IH. lia. Qed.
+Lemma fold_end_snoc l w : fold_end (l ++ [w]) = Z.max (fold_end l) (w_end w).
+Proof. unfold fold_end. now rewrite map_app, fold_left_app. Qed.
+
+Lemma strong_first c st rate num w p' : part_write c st rate (new_part num (w_dts w)) w = Some p' -> part_strong c p'.
+Proof.
+  intros Hp. apply part_write_smps in Hp. destruct Hp as (Hs & Hst & He & Hz & Hm & _). cbn in *.
+  unfold part_strong. rewrite Hs. cbn. repeat split; try lia; try discriminate; auto.
+Qed.
+Lemma strong_next c st rate p w p' : part_strong c p -> (p_end p - p_start p >=? c_part_dur c) = false ->
+  part_write c st rate p w = Some p' -> part_strong c p'.
+Proof.
+  intros Hst Hf Hp. pose proof (span_strong _ _ Hst) as Hsp. destruct Hst as (Hne & Hz & Hm & Hs & He & Hsh).
+  apply part_write_smps in Hp. destruct Hp as (Hs' & Hst' & He' & Hz' & Hm' & _).
+  unfold part_strong. rewrite Hs'. repeat split.
+  - destruct (p_smps p); discriminate.
+  - rewrite Hz', size_of_app, Hz. unfold size_of. cbn. lia.
+  - exact Hm'.
+  - rewrite Hst', Hs. destruct (p_smps p); [now destruct Hne|reflexivity].
+  - rewrite He', fold_end_snoc, He. reflexivity.
+  - unfold short. destruct (p_smps p) as [|a [|b r]] eqn:E; [now destruct Hne| |].
+    + cbn [app removelast]. apply Z.ltb_lt. rewrite Hsp. rewrite Z.geb_leb in Hf. apply Z.leb_gt in Hf. lia.
+    + replace ((a :: b :: r) ++ [w]) with (a :: b :: (r ++ [w])) by reflexivity.
+      destruct (r ++ [w]) eqn:E2; [now destruct r|]. rewrite <- E2.
+      replace (a :: b :: r ++ [w]) with ((a :: b :: r) ++ [w]) by reflexivity. rewrite removelast_last.
+      apply Z.ltb_lt. rewrite Hsp. rewrite Z.geb_leb in Hf. apply Z.leb_gt in Hf. lia.
+Qed.
+
+Lemma inv_close_part c g lg p : log_inv c lg -> g_cur g = Some p -> part_ok c (p_smps p) = true ->
+  parts_bounded c None (lg ++ close_part_ops g) = true /\ last_part None (lg ++ close_part_ops g) = Some (p_smps p).
+Proof.
+  intros [Hpb Htr] Hc Hok. rewrite pb_app, last_part_app, Hpb. unfold close_part_ops, create_ops. rewrite Hc.
+  destruct (g_created g); cbn [app parts_bounded last_part opart_of o_smps]; rewrite Hok; [|auto].
+  destruct (last_part None lg) as [q|]; [|auto]. cbn in Htr. apply Z.leb_le in Htr. rewrite Htr. auto.
+Qed.
+Lemma inv_seg_close c g lg : log_inv c lg -> (forall p, g_cur g = Some p -> part_ok c (p_smps p) = true) ->
+  log_inv c (lg ++ seg_close_ops g).
+Proof.
+  intros Hi Hp. unfold seg_close_ops, close_part_seg. destruct (g_cur g) as [p|] eqn:Hc.
+  - destruct (inv_close_part c g lg p Hi Hc (Hp p eq_refl)) as [H1 H2].
+    cbn [set_created g_created]. rewrite app_assoc. split.
+    + rewrite pb_app, H1, H2. reflexivity.
+    + rewrite last_part_app, H2. exact I.
+  - unfold close_part_ops. rewrite Hc. cbn [app]. destruct (g_created g); [|now rewrite app_nil_r].
+    destruct Hi as [Hpb Htr]. split.
+    + rewrite pb_app, Hpb. reflexivity.
+    + rewrite last_part_app. exact I.
+Qed.
+
+Lemma inv_seg_write c rate g w lg g1 lg1 ok : 0 <= c_max_part c ->
+  log_inv c lg -> (forall p, g_cur g = Some p -> part_strong c p) -> seg_write c rate g w lg = (g1, lg1, ok) ->
+  log_inv c lg1 /\ exists p1, g_cur g1 = Some p1 /\ (if ok then part_strong c p1 else part_ok c (p_smps p1) = true).
+Proof.
+  intros Hmax Hi Hst Hw.
+  assert (Hnew : forall num, match part_write c (g_start g) rate (new_part num (w_dts w)) w with
+                            | Some p' => part_strong c p'
+                            | None => part_ok c (p_smps (new_part num (w_dts w))) = true end).
+  { intros num. destruct (part_write c (g_start g) rate (new_part num (w_dts w)) w) eqn:Hp;
+      [eapply strong_first; eauto|].
+    unfold part_ok. cbn. rewrite andb_true_r. apply Z.leb_le. exact Hmax. }
+  destruct (seg_write_spec c rate g w lg) as (g' & Hs & _ & _ & _ & _ & _ & Hcur).
+  rewrite Hs in Hw. injection Hw as <- <- <-. rewrite Hcur. unfold sw_ops, sw_part, sw_full in *.
+  destruct (g_cur g) as [p|] eqn:Hc.
+  - specialize (Hst p eq_refl). destruct (p_end p - p_start p >=? c_part_dur c) eqn:Hf.
+    + destruct (inv_close_part c g lg p Hi Hc (strong_weak _ _ Hst)) as [H1 H2]. split.
+      * split; [exact H1|]. rewrite H2. cbn. rewrite (span_strong _ _ Hst). rewrite Z.geb_leb in Hf.
+        apply Z.leb_le in Hf. exact Hf.
+      * eexists; split; [reflexivity|]. specialize (Hnew (g_nextpart g)).
+        destruct (part_write _ _ _ _ w); exact Hnew.
+    + rewrite app_nil_r. split; [exact Hi|]. eexists; split; [reflexivity|].
+      destruct (part_write _ _ _ p w) eqn:Hp; [eapply strong_next; eauto|apply strong_weak; exact Hst].
+  - rewrite app_nil_r. split; [exact Hi|]. eexists; split; [reflexivity|]. specialize (Hnew (g_nextpart g)).
+    destruct (part_write _ _ _ _ w); exact Hnew.
+Qed.
+
+Definition InvCs (c : cfg) (v : sview) : Prop := match v with (sg, _, lg, _) => log_inv c lg /\ seg_strong c sg end.
+Definition InvCw (c : cfg) (v : sview) : Prop := match v with (sg, _, lg, _) => log_inv c lg /\ seg_weak c sg end.
+
+Lemma ensure_cur sg ns g0 ns0 p : ensure sg ns g0 ns0 -> g_cur g0 = Some p -> exists g, sg = Some g /\ g_cur g = Some p.
+Proof. intros [g n|n d m] H; [eauto|discriminate]. Qed.
+
+Lemma InvC_run c evs x : 0 <= c_max_part c -> InvCs c (view x) -> InvCw c (view (run_from c x evs)).
+Proof.
+  intros Hmax. apply (run_from_inv c (InvCs c) (InvCw c)).
+  - intros [[[sg ns] lg] ac] [H1 H2]. split; [exact H1|]. intros g p Hg Hp. apply strong_weak. eapply H2; eauto.
+  - intros sg ns lg ac g0 ns0 [H1 H2] He. split; [exact H1|]. intros g p [= <-] Hp.
+    destruct (ensure_cur _ _ _ _ _ He Hp) as (g & -> & Hg). eapply H2; eauto.
+  - intros sg ns lg ac g0 ns0 rate w g1 lg1 [H1 H2] He Hw.
+    assert (Hst : forall p, g_cur g0 = Some p -> part_strong c p).
+    { intros p Hp. destruct (ensure_cur _ _ _ _ _ He Hp) as (g & -> & Hg). eapply H2; eauto. }
+    destruct (inv_seg_write _ _ _ _ _ _ _ _ Hmax H1 Hst Hw) as (Hi & p1 & Hc1 & Hp1).
+    split; [exact Hi|]. intros g p [= <-] Hp. rewrite Hc1 in Hp. injection Hp as <-. exact Hp1.
+  - intros sg ns lg ac g0 ns0 rate w g1 lg1 [H1 H2] He Hw.
+    assert (Hst : forall p, g_cur g0 = Some p -> part_strong c p).
+    { intros p Hp. destruct (ensure_cur _ _ _ _ _ He Hp) as (g & -> & Hg). eapply H2; eauto. }
+    destruct (inv_seg_write _ _ _ _ _ _ _ _ Hmax H1 Hst Hw) as (Hi & p1 & Hc1 & Hp1).
+    split.
+    + split; [exact Hi|]. intros g p [= <-] Hp. rewrite Hc1 in Hp. injection Hp as <-. exact Hp1.
+    + intros d n. split; [|intros g p [= <-] Hp; discriminate].
+      rewrite seg_close_spec. apply inv_seg_close; [exact Hi|].
+      intros p Hp. rewrite Hc1 in Hp. injection Hp as <-. apply strong_weak. exact Hp1.
+Qed.
+
+Lemma parts_bounded_raw c evs : 0 <= c_max_part c -> parts_bounded c None (x_log (run_raw c evs)) = true.
+Proof.
+  intros Hmax. unfold run_raw. set (x := run_from c (init_st c) evs).
+  assert (HC : InvCw c (view x)).
+  { apply InvC_run; [exact Hmax|]. split; [split; [reflexivity|exact I]|]. intros g p [=]. }
+  pose proof (finish_view x) as Hv. unfold view in Hv at 1. unfold view in HC. destruct HC as [H1 H2].
+  destruct (x_seg x) as [g|] eqn:Hg.
+  - injection Hv as _ _ Hl _. rewrite Hl. apply inv_seg_close; [exact H1|]. intros p Hp. eapply H2; eauto.
+  - injection Hv as _ _ Hl _. rewrite Hl. apply H1.
+Qed.
+
+(* readable corollaries of parts_bounded *)
+Lemma pb_in c : forall l prev k p, parts_bounded c prev l = true -> In (SPart k p) l -> part_ok c (o_smps p) = true.
+Proof.
+  induction l as [|o r IH]; intros prev k p Hb Hin; [destruct Hin|]. destruct Hin as [->|Hin].
+  - cbn in Hb. apply andb_prop in Hb. destruct Hb as [Hb _]. apply andb_prop in Hb. tauto.
+  - destruct o; cbn in Hb; [eapply IH; eauto| |eapply IH; eauto].
+    apply andb_prop in Hb. destruct Hb as [_ Hb]. eapply IH; eauto.
+Qed.
+Lemma pb_adjacent c : forall l prev l1 k p k' q l2, parts_bounded c prev l = true ->
+  l = l1 ++ SPart k p :: SPart k' q :: l2 -> c_part_dur c <= span (o_smps p).
+Proof.
+  intros l prev l1 k p k' q l2 Hb ->. rewrite pb_app in Hb. apply andb_prop in Hb. destruct Hb as [_ Hb].
+  cbn in Hb. apply andb_prop in Hb. destruct Hb as [_ Hb]. apply andb_prop in Hb. destruct Hb as [Hb _].
+  apply andb_prop in Hb. destruct Hb as [_ Hb]. apply Z.leb_le. exact Hb.
 Qed.
